@@ -5,14 +5,14 @@
 import glob, json, os, shutil
 V = "/verif/seeded"
 res = json.load(open(os.path.join(V, "RESULTS.json"))) if os.path.exists(os.path.join(V, "RESULTS.json")) else {}
-for d in sorted(glob.glob(os.path.join(V, "_inbox", "C*", "[0-9]"))):
+for d in sorted(glob.glob(os.path.join(V, "_inbox", "C*", "[0-9]*"))):
     pid, k = d.split("/")[-2:]
     dst = os.path.join(V, pid, k)
     os.makedirs(os.path.dirname(dst), exist_ok=True)
     if os.path.exists(dst):
         shutil.rmtree(dst)
     shutil.move(d, dst)
-for d in sorted(glob.glob(os.path.join(V, "C*", "[0-9]"))):
+for d in sorted(glob.glob(os.path.join(V, "C*", "[0-9]*"))):
     pid, k = d.split("/")[-2:]
     tag = "%s/%s" % (pid, k)
     mp = os.path.join(d, "meta.json")
@@ -34,4 +34,4 @@ for d in glob.glob(os.path.join(V, "_inbox", "C*")) + [os.path.join(V, "_inbox")
         os.rmdir(d)
     except OSError:
         pass
-print("seeds:", len(glob.glob(os.path.join(V, "C*", "[0-9]"))))
+print("seeds:", len(glob.glob(os.path.join(V, "C*", "[0-9]*"))))
